@@ -11,6 +11,7 @@ import WS.Model.NetConn
 import WS.Model.WsJson
 import WS.Model.Pool
 import WS.Model.Ping
+import WS.Model.DialReq
 /-
   Command table of the driver.  Every command is a pure function String → String.
 -/
@@ -405,6 +406,22 @@ def cmdPingReg (args : List String) : String :=
     | none => "bad-args"
   | _ => "bad-args"
 
+/-- `dial-req callerHdr subprotos copts keyhex`: the values the request carries under the headers Dial is
+responsible for and under the caller's own keys, printed as `key=hexvalue,hexvalue` joined by `;` in key order -/
+def cmdDialReq (args : List String) : String :=
+  match args with
+  | [h, sps, cop, key] =>
+    match parseHdr h, strList sps, parseCopts cop, strOfHex key with
+    | some h, some sps, some cop, some key =>
+      let r := Model.dialRequest h [] sps cop key
+      let keys := ["Connection", "Cookie", "Sec-Websocket-Extensions", "Sec-Websocket-Key", "Sec-Websocket-Protocol",
+                   "Sec-Websocket-Version", "Upgrade", "X-Extra"]
+      let one (k : String) : String :=
+        k ++ "=" ++ String.intercalate "," ((r.hdr.values k.toList).map hexOfStr)
+      "ok " ++ String.intercalate ";" (keys.map one)
+    | _, _, _, _ => "bad-args"
+  | _ => "bad-args"
+
 /-- `json-rt hex`: parse the JSON text with the Lean codec and print it again -/
 def cmdJsonRt (args : List String) : String :=
   match args with
@@ -461,6 +478,7 @@ def handle (line : String) : String :=
     | "netconn" => cmdNetConn args
     | "deadline" => cmdDeadline args
     | "pingreg" => cmdPingReg args
+    | "dial-req" => cmdDialReq args
     | "json-rt" => cmdJsonRt args
     | "pool-monitor" => cmdPoolMonitor args
     | "ping" => "pong"
